@@ -4,7 +4,7 @@ from numpy import linalg
 from pandapipes.constants import P_CONVERSION, GRAVITATION_CONSTANT, NORMAL_PRESSURE, \
     NORMAL_TEMPERATURE
 from pandapipes.idx_branch import LENGTH, LAMBDA, D, LOSS_COEFFICIENT as LC, PL, AREA, \
-    MDOTINIT, FROM_NODE, TOUTINIT, TEXT, ALPHA, TL, QEXT, DO
+    MDOTINIT, FROM_NODE, TO_NODE, FROM_NODE_T_SWITCHED, TOUTINIT, TEXT, ALPHA, TL, QEXT, DO
 from pandapipes.idx_node import HEIGHT, PAMB, PINIT, TINIT as TINIT_NODE
 
 try:
@@ -63,6 +63,7 @@ def derivatives_hydraulic_comp_numba(node_pit, branch_pit, lambda_, der_lambda, 
     load_vec_nodes_to = np.zeros_like(der_lambda)
     df_dm_nodes = np.ones_like(der_lambda)
     from_nodes = branch_pit[:, FROM_NODE].astype(np.int32)
+    to_nodes = branch_pit[:, TO_NODE].astype(np.int32)
     dp_frict_loss = np.zeros_like(der_lambda)
 
     # Formulas for gas pressure loss according to laminar version
@@ -74,7 +75,8 @@ def derivatives_hydraulic_comp_numba(node_pit, branch_pit, lambda_, der_lambda, 
         p_diff = p_init_i_abs[i] - p_init_i1_abs[i]
         p_sum = p_init_i_abs[i] + p_init_i1_abs[i]
         p_sum_div = np.divide(1, p_sum)
-        fn = from_nodes[i]
+        # inlet node: the to-node if the fluid flows against the declared direction
+        fn = to_nodes[i] if branch_pit[i][FROM_NODE_T_SWITCHED] else from_nodes[i]
         tm = (node_pit[fn, TINIT_NODE] + branch_pit[i][TOUTINIT]) / 2
 
         const_height =  rho[i] * GRAVITATION_CONSTANT * height_difference[i] / P_CONVERSION
